@@ -150,7 +150,38 @@ func Try(f func()) (panicked bool) {
 // incl. slice cells between len and cap - is reported ("shared-write"): two concurrent calls of f would both
 // touch that cell.  Natively, with VH_RACE=1 (binary built with -race), f runs in two goroutines at once so
 // that the race detector confirms the report; otherwise f simply runs.
+//
+// Results stay valid: every result handed back by an earlier Isolated call is kept (live slice + private copy) in
+// isoResults; after each later call all of them must still hold their bytes - a serializer that returns memory it
+// also recycles (a pooled or cached scratch buffer) fails here, deterministically, also natively.  Being
+// reachable from a package-level variable, the live results are also shared memory for the write-set recorder.
 func Isolated(f func() ([]byte, error)) ([]byte, error) {
+	b, e := isolatedRun(f)
+	for _, r := range isoResults {
+		Assert(bytesEq(r.live, r.snap), "a result returned by an earlier serializer call is left intact by later calls (results do not alias recycled buffers)")
+	}
+	isoResults = append(isoResults, isoResult{b, append([]byte(nil), b...)})
+	return b, e
+}
+
+type isoResult struct{ live, snap []byte }
+
+var isoResults []isoResult
+
+func bytesEq(a, b []byte) bool {
+	if len(a) != len(b) {
+		return false
+	}
+	ok := true
+	for i := range a {
+		if a[i] != b[i] {
+			ok = false
+		}
+	}
+	return ok
+}
+
+func isolatedRun(f func() ([]byte, error)) ([]byte, error) {
 	if os.Getenv("VH_RACE") == "" {
 		return f()
 	}
